@@ -67,6 +67,11 @@ DropTrailing0(q) == IF \E i \in 1..Len(q) : q[i] # 0
 (* ids keep denoting the objects now found at the same positions              *)
 SaveLoad(s, P) == Res("ok", {[s EXCEPT !.slots[P] = DropTrailing0(@)]}, 0)
 
+(* a project read from a file that has NO module at position 0 (project.modules[0] = None, write, read): the positions are   *)
+(* kept, position 0 is empty; the Output object the loaded project carries as `output` keeps naming the project and index 0 *)
+LoadNoOutput(s, P) ==
+  Res("ok", {[s EXCEPT !.slots[P] = DropTrailing0(IF Len(@) >= 1 THEN [@ EXCEPT ![1] = 0] ELSE @)]}, 0)
+
 (* note.mod = m *)
 SetNoteMod(s, q, m) ==
   IF s.parent[m] = 0 THEN Res("ModuleOwnershipError", {s}, 0)
@@ -89,6 +94,17 @@ Coherent(s) ==
   /\ \A P \in 1..2 : Len(s.slots[P]) >= 1 /\ s.slots[P][1] = P            \* position 0 holds the output
   /\ \A P \in 1..2 : s.output[P] = s.slots[P][1]                          \* and Project.output is that module
   /\ \A m \in DOMAIN s.parent : s.parent[m] # 0 => Has(s.slots[s.parent[m]], m)
+  /\ \A P \in 1..2 : \A i, j \in 1..Len(s.slots[P]) : i # j /\ s.slots[P][i] # 0 => s.slots[P][i] # s.slots[P][j]
+  /\ \A q \in DOMAIN s.pproj : s.pproj[q] # 0 <=> \E P \in 1..2 : Has(s.pats[P], q)
+  /\ \A q \in DOMAIN s.pproj : s.pproj[q] # 0 => Has(s.pats[s.pproj[q]], q)
+(* coherence of a state in which a project may have been loaded WITHOUT its output (position 0 empty, see LoadNoOutput): *)
+(* the clauses about position 0 and about the output object's slot are waived for such a project, all others hold        *)
+Headless(s, P) == Len(s.slots[P]) = 0 \/ s.slots[P][1] = 0 \/ s.slots[P][1] # P
+CoherentH(s) ==
+  /\ \A P \in 1..2 : \A i \in 1..Len(s.slots[P]) :
+        LET m == s.slots[P][i] IN m # 0 => s.index[m] = i - 1 /\ s.parent[m] = P
+  /\ \A P \in 1..2 : ~Headless(s, P) => (s.slots[P][1] = P /\ s.output[P] = s.slots[P][1])
+  /\ \A m \in DOMAIN s.parent : s.parent[m] # 0 /\ ~(m <= 2 /\ Headless(s, m)) => Has(s.slots[s.parent[m]], m)
   /\ \A P \in 1..2 : \A i, j \in 1..Len(s.slots[P]) : i # j /\ s.slots[P][i] # 0 => s.slots[P][i] # s.slots[P][j]
   /\ \A q \in DOMAIN s.pproj : s.pproj[q] # 0 <=> \E P \in 1..2 : Has(s.pats[P], q)
   /\ \A q \in DOMAIN s.pproj : s.pproj[q] # 0 => Has(s.pats[s.pproj[q]], q)
